@@ -1213,6 +1213,11 @@ def derived_fields(gen, schemas):
             lhs = (mm.group(1), int(mm.group(2) or 0))
             if lhs in stored or "new " in mm.group(3):
                 continue
+            mv = re.fullmatch(r"CoordinateVector\s*<[^>]*>\s*\((.*)\)", mm.group(3).strip(), flags=re.S)
+            if mv and mm.group(2) is None and len(split_top(mv.group(1))) == 3:
+                for k, a in enumerate(split_top(mv.group(1))):
+                    out["restart"].append((cname, (mm.group(1), k), ExprParser(a, stored, {}).parse(), a))
+                continue
             out["restart"].append((cname, lhs, ExprParser(mm.group(3), stored, {}).parse(), mm.group(3)))
         # loops that assign constants to arrays (limiters, active buffers)
         for site, text in (("ctor", body), ("restart", rbody)):
